@@ -890,20 +890,34 @@ def linesOf (input : Bytes) : List Bytes :=
   | [] :: r => r.reverse
   | _ => ls
 
+/-- the locations of one stdin line, processed from a FRESH state: `hwloc_bitmap_zero(cpuset); hwloc_bitmap_zero(nodeset)` before
+    the `strtok` loop, whatever the options (the cpuset and the nodeset the option state `s` holds are not read) -/
+def lineFold (c : Ctx) (s : St) (line : Bytes) : Except Res St :=
+  (tokensOf line).foldl (fun (st : Except Res St) t => match st with
+    | .error e => .error e
+    | .ok st => stepLoc c st t) (.ok { s with cpuset := Bitmap.alloc, nodeset := Bitmap.alloc })
+
+/-- what one stdin line contributes: the bytes `hwloc_calc_output` prints for it, or the end of the run -/
+inductive LineRes
+  | stop (r : Res)
+  | out (o : Bytes)
+deriving Repr, DecidableEq
+
+def lineOut (c : Ctx) (s : St) (cfg : OutCfg) (line : Bytes) : LineRes :=
+  match lineFold c s line with
+  | .error e => .stop e
+  | .ok s1 =>
+    if s1.noSmt.isSome && s1.cpuset.inf then .stop (.skip "no-smt-infinite") else
+    match output c s1 cfg s1.cpuset s1.nodeset with
+    | (rc, none) => .stop (if rc == 2 then .exit 1 none else .exit 0 none)   -- the return value of hwloc_calc_output is ignored here
+    | (rc, some o) => if rc != 0 then .stop (.exit rc none) else .out o
+
 def stdinLoop (c : Ctx) (s : St) (cfg : OutCfg) : List Bytes → Bytes → Res
   | [], acc => .exit 0 (some acc)
   | line :: rest, acc =>
-    let s0 := { s with cpuset := Bitmap.alloc, nodeset := Bitmap.alloc }
-    let folded := (tokensOf line).foldl (fun (st : Except Res St) t => match st with
-      | .error e => .error e
-      | .ok st => stepLoc c st t) (.ok s0)
-    match folded with
-    | .error e => e
-    | .ok s1 =>
-      if s1.noSmt.isSome && s1.cpuset.inf then .skip "no-smt-infinite" else
-      match output c s1 cfg s1.cpuset s1.nodeset with
-      | (rc, none) => if rc == 2 then .exit 1 none else .exit 0 none     -- the return value of hwloc_calc_output is ignored here
-      | (rc, some o) => if rc != 0 then .exit rc none else stdinLoop c s cfg rest (acc ++ o)
+    match lineOut c s cfg line with
+    | .stop r => r
+    | .out o => stdinLoop c s cfg rest (acc ++ o)
 
 /-! ### main -/
 
